@@ -564,7 +564,7 @@ def _start(srv):
     th = threading.Thread(target=body, daemon=True)
     th.start()
     t0 = _time.time()
-    while not srv.active and _time.time() - t0 < 2:
+    while not srv.active and _time.time() - t0 < 20:
         _time.sleep(0.005)
     return th
 
@@ -574,7 +574,7 @@ def _stop(srv, th):
         srv.close()
     except ValueError:
         pass
-    th.join(3)
+    th.join(15)
     if th.is_alive():
         return False
     return True
@@ -587,7 +587,7 @@ def udp_run(ctx, datagrams):
     port = srv.port
     case = {"kind": "udp", "datagrams": [d.hex() for d in datagrams]}
     try:
-        cl = R.UDPRegistryClient(ip="127.0.0.1", port=port, timeout=1.0, logger=_quiet)
+        cl = R.UDPRegistryClient(ip="127.0.0.1", port=port, timeout=8.0, logger=_quiet)
         ok = cl.register(("foo",), 1234, interface="127.0.0.1")
         s = socket.socket(socket.AF_INET, socket.SOCK_DGRAM)
         try:
@@ -601,7 +601,7 @@ def udp_run(ctx, datagrams):
         for d in datagrams:
             spec.apply(spec_classify(d), "127.0.0.1", 0)
         want = set(spec.fresh("FOO", 0))
-        ans = R.UDPRegistryClient(ip="127.0.0.1", port=port, timeout=0.6, logger=_quiet).discover("FOO") if th.is_alive() else None
+        ans = R.UDPRegistryClient(ip="127.0.0.1", port=port, timeout=8.0, logger=_quiet).discover("FOO") if th.is_alive() else None
         good = type(ans) is tuple and set(ans) == want and len(ans) == len(want)
         if not good:
             _time.sleep(0.2)        # let a dying thread finish dying before deciding which failure this is
@@ -631,7 +631,7 @@ def tcp_run(ctx, model, script):
     port = srv.port
     held, answers = [], []
     case = {"kind": "tcp", "script": script}
-    bound = 1.5
+    bound = 8.0          # generous: a passing run returns as soon as the answer arrives; a loaded machine must not look like starvation
     try:
         for step in script:
             if step in ("silent", "partial"):
